@@ -35,6 +35,7 @@ type Config struct {
 	Compression         int      `json:"compression"`                 // 0 none 1 snappy 2 zstd
 	EncKeyLen           int      `json:"enc_key_len"`                 // 0,16,24,32
 	EncRotS             int      `json:"enc_rot_s,omitempty"`         // data-key rotation interval in seconds (0 = badger's default, 10 days)
+	EncRotMs            int      `json:"enc_rot_ms,omitempty"`        // data-key rotation interval in milliseconds (overrides enc_rot_s)
 	EncRotateMaster     bool     `json:"enc_rotate_master,omitempty"` // C23: rotate the master key before the last re-open
 	EncKeyVariant       byte     `json:"enc_key_variant,omitempty"`   // which master key the options carry (set by the harness after a rotation)
 	BlockCache          bool     `json:"block_cache"`
